@@ -24,6 +24,11 @@ def obligations(tier):
         obs.append(Ob(f"C01.timestamp_dataflow.K{k}", "CH", "harness.h_sync", "timestamp_at_tick_dataflow", 240, {"VF_K": k},
                       funcs=(SY + "BPMEvents.timestamp_at_tick", SY + "BPMEvents._index_of_proximal_event", TM + "add", TK + "between"),
                       bounds=f"K={k} tempo events, symbolic ticks/stamps/hint/resolution"))
+    for kb in ([18] if tier == "quick" else [18, 26, 34]):
+        obs.append(Ob(f"C01.long_map.index.K{kb}", "CH", "harness.h_big", "index_big", 2400, {"VF_KB": kb},
+                      funcs=(SY + "BPMEvents._index_of_proximal_event",), bounds=f"{kb} tempo events with symbolic ticks, every hint"))
+    if tier == "thorough":
+        obs.append(Ob("C01.long_map.timestamp.K18", "CH", "harness.h_big", "timestamp_big", 2400, {"VF_KB": 18}, funcs=(SY + "BPMEvents.timestamp_at_tick",)))
     for kind in range(6):
         obs.append(Ob(f"C01.constructor.{['TS','SP','TE','TXT','SEC','LYR'][kind]}", "CH", "harness.h_events", "constructor_dataflow", 120,
                       {"VF_KIND": kind}, funcs=(SY + "TimeSignatureEvent.from_parsed_data", IN + "SpecialEvent.from_parsed_data",
